@@ -12,6 +12,18 @@ sys.path.insert(0, str(Path(__file__).resolve().parent))
 import vlib  # noqa: E402
 
 
+def write_root():
+    """PhreeqcVerif.lean imports every module of the library (so `lake build` checks all of them)"""
+    mods = []
+    for sub in ("Model", "Gen", "Lemmas", "Properties"):
+        for f in sorted((vlib.LEAN / "PhreeqcVerif" / sub).glob("*.lean")):
+            mods.append(f"import PhreeqcVerif.{sub}.{f.stem}")
+    text = "\n".join(mods) + "\n"
+    root = vlib.LEAN / "PhreeqcVerif.lean"
+    if not root.exists() or root.read_text() != text:
+        root.write_text(text)
+
+
 def setup():
     """build everything once from files on disk: library, Lean project, harnesses"""
     ctx = vlib.Ctx("C00", "quick", 0)
@@ -23,6 +35,7 @@ def setup():
         if hasattr(mod, "generate"):
             ctx.log("translator", f.name)
             mod.generate(ctx)
+    write_root()
     ok, out = ctx.lake_build([])
     if not ok:
         print(out[-6000:])
